@@ -102,14 +102,53 @@ StepsLinked(e) ==   \* the snapshots are consecutive columns and the last one is
    /\ \A k \in 1..Len(e.steps) : e.steps[k].col = k
    /\ Len(e.steps) > 0 => LET t == e.steps[Len(e.steps)] IN t.u = e.u /\ t.s = e.s /\ t.row = e.rank /\ t.swaps = e.swaps
    /\ Len(e.cols) = NRows(e)
-Check(e) == /\ e.ev = "echelon_run"
+(* ---- padic_run: the lifting steps of the p-adic solver (PAdic.tla).  Big integers are sign/digit records; every
+   identity is an identity between integers and is checked modulo enough primes (CRT):
+      digit range   0 <= x < prime, 0 <= s < p            (digit strings compared)
+      accumulate    s = s_prev + x * p_prev,  p = p_prev * prime
+      residual      prime * b_next + A x = b                (so the division in the code was exact)
+      Lift          A s + p * b_next = B                    (PAdic!Lift on the logged state)
+   and consecutive steps are linked (b of step k+1 is b_next of step k). *)
+BigNonNeg(x) == x.s \in {0, 1}
+RECURSIVE DigitsLess(_,_)
+DigitsLess(a, b) == IF a = <<>> THEN FALSE ELSE IF Head(a) # Head(b) THEN Head(a) < Head(b) ELSE DigitsLess(Tail(a), Tail(b))
+BigLess(x, y) == \* for non-negative x, y without leading zeros
+   IF x.s = 0 THEN y.s = 1 ELSE y.s = 1 /\ (Len(x.d) < Len(y.d) \/ (Len(x.d) = Len(y.d) /\ DigitsLess(x.d, y.d)))
+BigMatDigits(X) == LET f(i) == LET g(j) == Dg(X[i][j]) IN MaxSeq(g, Len(X[i])) IN MaxSeq(f, Len(X))
+One == [s |-> 1, d |-> <<1>>]
+ZeroBigMat(n, m) == [i \in 1..n |-> [j \in 1..m |-> [s |-> 0, d |-> <<0>>]]]
+\* (A * X)[i][j] modulo q for an integer matrix A (small entries) and a big-integer matrix X
+ADot(A, X, i, j, q) == LET RECURSIVE S(_) S(k) == IF k = 0 THEN 0 ELSE (S(k-1) + Mod(A[i][k], q) * Res(X[k][j], q)) % q IN S(Len(A[i]))
+PadicStepOK(e, k) ==
+   LET t == e.steps[k]
+       n == Len(e.a)  m == Len(e.b[1])
+       sprev == IF k = 1 THEN ZeroBigMat(n, m) ELSE e.steps[k-1].s
+       pprev == IF k = 1 THEN One ELSE e.steps[k-1].p
+       dg == BigMatDigits(t.s) + BigMatDigits(t.b) + Dg(t.p) + 14
+       np == IF Enough(Len(PRIMES), dg) THEN NPrimesFor(dg) ELSE 0
+   IN /\ t.step = k - 1 /\ t.of = Len(e.steps) /\ t.last = (k = Len(e.steps)) /\ t.prime = e.steps[1].prime /\ BigLess(One, t.prime)
+      /\ Len(t.x) = n /\ Len(t.s) = n /\ Len(t.b) = n
+      /\ \A i \in 1..n : Len(t.x[i]) = m /\ Len(t.s[i]) = m /\ Len(t.b[i]) = m
+      /\ \A i \in 1..n, j \in 1..m : BigNonNeg(t.x[i][j]) /\ BigLess(t.x[i][j], t.prime) /\ BigNonNeg(t.s[i][j]) /\ BigLess(t.s[i][j], t.p)
+      /\ (k = 1 => \A i \in 1..n, j \in 1..m : Res(t.b[i][j], PRIMES[1]) = Mod(e.b[i][j], PRIMES[1]) /\ Dg(t.b[i][j]) <= 10)   \* starts from B
+      /\ (k > 1 => t.b = e.steps[k-1].b_next)
+      /\ IF np = 0 THEN PrintT(<<"NOTE", "undecided: p-adic step (prime table too short)">>)
+         ELSE \A x \in 1..np : LET q == PRIMES[x] IN
+              /\ Res(t.p, q) = (Res(pprev, q) * Res(t.prime, q)) % q
+              /\ \A i \in 1..n, j \in 1..m :
+                    /\ Res(t.s[i][j], q) = (Res(sprev[i][j], q) + Res(t.x[i][j], q) * Res(pprev, q)) % q
+                    /\ (~t.last => /\ (Res(t.prime, q) * Res(t.b_next[i][j], q) + ADot(e.a, t.x, i, j, q)) % q = Res(t.b[i][j], q)
+                                    /\ (ADot(e.a, t.s, i, j, q) + Res(t.p, q) * Res(t.b_next[i][j], q)) % q = Mod(e.b[i][j], q))
+PadicOK(e) == /\ Len(e.steps) >= 1 /\ \A k \in 1..Len(e.steps) : PadicStepOK(e, k)
+Check(e) == IF e.ev = "padic_run" THEN PadicOK(e) ELSE
+            /\ e.ev = "echelon_run"
             /\ StepsLinked(e)
             /\ \A k \in 1..Len(e.steps) : StateOK(e, StateAt(e, k))
             /\ (Len(e.steps) = 0 => e.rank = 0 /\ e.swaps = 0)
             /\ (Len(e.steps) > 0 => FinalOK(e))
 Next == /\ l <= Len(Rec)
         /\ ("panic" \notin DOMAIN Rec[l] /\ Check(Rec[l])) = TRUE
-        /\ (IF "panic" \notin DOMAIN Rec[l] /\ ~Conforms(Rec[l]) THEN PrintT(<<"NOTE", "conformance: a step of the elimination is not a step of Echelon!EStep", l>>) ELSE TRUE) = TRUE
+        /\ (IF "panic" \notin DOMAIN Rec[l] /\ Rec[l].ev = "echelon_run" /\ ~Conforms(Rec[l]) THEN PrintT(<<"NOTE", "conformance: a step of the elimination is not a step of Echelon!EStep", l>>) ELSE TRUE) = TRUE
         /\ l' = l + 1
 Spec == Init /\ [][Next]_l
 Accepted == LET d == TLCGet("stats").diameter IN
